@@ -25,6 +25,13 @@ expressions
   * `bitstruct.unpack("u<w>u<w>…", e)` with a tuple of names as target (→ big-endian bit fields, `Py.bitsBE`)
   * pure functions only: `return e`, `max(a, b)`, `min(a, b)`, `x or d` for an `Optional[int]` `x` (→ `Py.orNat`: `d` when `x` is None or 0),
     `obj.attr` / `obj.method()` of abstract records declared in the `PureSpec` (→ the Lean term the spec names)
+  * pure functions, loops: `for a, b in …` (flat tuple of names, elements of a tuple type), `sorted(xs)` of `Tuple[int, int]`
+    (lexicographic, `Py.sortedIntPair`), `[f(x) for x in xs]` / `(f(x) for x in xs)` as the iterable (one generator, no condition, `f(x)`
+    cannot raise; → `xs.map fun x => …`); a loop variable may not be a local declared before the loop (Python assigns, Lean shadows)
+  * pure functions, calls: `cast(T, e)` (typing.cast: → `e`, listed in the header), functions / methods WITH arguments that the
+    `PureSpec` maps to a hand-written Lean term (`calls`; may be declared raising: → `(← Py.call …)`), `EnumName.X` of a plain `Enum`
+    whose members the spec maps one-to-one to the constructors of a Lean inductive type (`==`/`!=` on those: identity),
+    statement `odxraise(msg[, OdxError|EncodeError|DecodeError])` (STRICT MODE: → `throw`; not a terminator for the flow analysis)
 typing (static, flow-insensitive per variable; the translator infers it)
   * `Nat` (provably non-negative int), `Int`, `Bool`, `Bytes`, `Option T`. A variable's type is the join of everything assigned to it.
   * operations that Python would reject at run time on `None` become `Py.unwrap` (→ `Py.Err.typeError`)
@@ -261,12 +268,41 @@ class Translator:
             if val < 0:
                 return E(f"(({val} : Int) /- {n.value.id}.{n.attr} -/)", INT, lit=val)
             return E(f"({val} /- {n.value.id}.{n.attr} -/)", NAT, lit=val)
+        if self.pure is not None and isinstance(n.value, ast.Name) and n.value.id in self.pure.enums:
+            return self._enum_member(n)
         if self.pure is not None:
             rec, obj = self._record_of(n.value)
             if rec is not None and (rec, n.attr) in self.pure.attrs:
                 tpl, ty = self.pure.attrs[(rec, n.attr)]
                 return E(tpl.format(obj), ty)
         raise Unsupported(n, "attribute access outside the subset")
+
+    def _enum_member(self, n):
+        """`EnumName.X` of a plain `Enum` declared in the spec: a constructor of the Lean inductive type the spec names. The spec
+        must map EVERY member of the Python class (a member added to the source has no constructor in the model: loud failure);
+        members are compared by identity in Python (`Enum` does not override `__eq__`), by constructor in Lean."""
+        cls, (lean_type, members) = n.value.id, self.pure.enums[n.value.id]
+        src = self._enum_class_members(cls, n)
+        if sorted(src) != sorted(members):
+            raise Unsupported(n, f"members of enum {cls} in the source {sorted(src)} differ from the ones the spec maps {sorted(members)}")
+        if n.attr not in members:
+            raise Unsupported(n, f"{cls}.{n.attr} is not a member of the enum")
+        self.enum_uses[f"{cls}.{n.attr}"] = f"{lean_type}.{members[n.attr]}"
+        return E(f"{lean_type}.{members[n.attr]}", ("Rec", lean_type))
+
+    def _enum_class_members(self, cls, node):
+        for c in self.module.body:
+            if isinstance(c, ast.ClassDef) and c.name == cls:
+                if not any(getattr(b, "id", getattr(b, "attr", "")) == "Enum" for b in c.bases):
+                    raise Unsupported(node, f"{cls} is not a plain Enum")
+                out = []
+                for st in c.body:
+                    if isinstance(st, ast.Assign) and len(st.targets) == 1 and isinstance(st.targets[0], ast.Name):
+                        out.append(st.targets[0].id)
+                    elif isinstance(st, ast.FunctionDef) and st.name in ("__eq__", "__ne__", "__hash__"):
+                        raise Unsupported(node, f"{cls} overrides {st.name}")
+                return out
+        raise Unsupported(node, f"enum class {cls} is not defined in this module")
 
     def _record_of(self, v):
         """(record type name, Lean term) of an expression that denotes a record of the pure-function spec"""
@@ -390,6 +426,12 @@ class Translator:
             if BOOL in (a.ty, b.ty) and a.ty != b.ty:
                 raise Unsupported(n, "comparison of a bool with a non-bool")
             t = join(a.ty, b.ty, n)                                        # None == 0 is simply False: compare at the joined type
+            base = strip_opt(t)
+            if isinstance(base, tuple) and base[0] == "Rec":
+                if not (self.pure and base[1] in [v[0] for v in self.pure.enums.values()]):
+                    raise Unsupported(n, f"== on {lean_ty(base)}: only enum members are compared (by identity); __eq__ of other records is outside the subset")
+            elif base not in (NAT, INT, BOOL, BYTES):
+                raise Unsupported(n, f"== on {lean_ty(base)}")
             if is_opt(t) and t[1] is None:
                 raise Unsupported(n, "comparison of None with None")
             return E(f"({self.coerce(a, t, n)} {sym} {self.coerce(b, t, n)})", BOOL)
@@ -441,6 +483,10 @@ class Translator:
             # a function / method that is not translated: the spec names the hand-written Lean term that stands for it
             key, obj = None, ""
             if isinstance(f, ast.Name) and (None, f.id) in self.pure.calls:
+                if not self._imported_name(f.id) and not any(isinstance(d, ast.FunctionDef) and d.name == f.id for d in self.module.body):
+                    raise Unsupported(n, f"`{f.id}` is neither imported nor defined at module level")
+                if f.id in self.vt:
+                    raise Unsupported(n, f"`{f.id}` is also a local")
                 key = (None, f.id)
             elif isinstance(f, ast.Attribute):
                 rec, obj = self._record_of(f.value)
@@ -612,7 +658,59 @@ class Translator:
         if isinstance(v, ast.Call) and isinstance(v.func, ast.Attribute) and isinstance(v.func.value, ast.Name) \
                 and v.func.value.id == "self" and self.slot and v.func.attr in self.slot.events:
             return self._callback(st, v, ind)
+        if isinstance(v, ast.Call) and isinstance(v.func, ast.Name) and v.func.id == "odxraise":
+            return self._odxraise(st, v, ind)
         raise Unsupported(st, "expression statement outside the subset")
+
+    ODX_ERRORS = {"OdxError": "odxError", "EncodeError": "encodeError", "DecodeError": "decodeError"}
+
+    def _odxraise(self, st, call, ind):
+        """`odxraise(msg[, ErrorType])` in STRICT MODE (`exceptions.strict_mode = True`, the default and the mode the models follow):
+        raises ErrorType (default OdxError). In non-strict mode it logs and *returns*; that mode is outside this rendering, but the
+        statements after the call are still translated as reachable (the translator does not treat the call as a terminator)."""
+        if not self._imported_name("odxraise"):
+            raise Unsupported(st, "`odxraise` is not imported in this module")
+        args = list(call.args)
+        kw = {k.arg: k.value for k in call.keywords}
+        if len(args) > 2 or set(kw) - {"message", "error_type"} or (len(args) > 0 and "message" in kw) or (len(args) > 1 and "error_type" in kw):
+            raise Unsupported(st, "odxraise(message, error_type)")
+        msg = args[0] if args else kw.get("message")
+        ety = args[1] if len(args) > 1 else kw.get("error_type")
+        if msg is not None:
+            self._message(msg)
+        kind = "OdxError"
+        if ety is not None:
+            if not (isinstance(ety, ast.Name) and ety.id in self.ODX_ERRORS):
+                raise Unsupported(st, "error type of odxraise outside the subset")
+            kind = ety.id
+        note = "`odxraise` is rendered for strict mode (exceptions.strict_mode = True): it raises"
+        if note not in self.notes:
+            self.notes.append(note)
+        self.emit(ind, f"throw Py.Err.{self.ODX_ERRORS[kind]}", st)
+        return False
+
+    def _message(self, m):
+        """a diagnostic text: a string literal, or an f-string over names / attribute chains (formatting those does not raise for the
+        dataclasses, enums, ints and strings of the subset); its content is not modelled"""
+        if isinstance(m, ast.Constant) and isinstance(m.value, str):
+            return
+        if isinstance(m, ast.JoinedStr):
+            for part in m.values:
+                if isinstance(part, ast.Constant):
+                    continue
+                v = part.value
+                while isinstance(v, ast.Attribute):
+                    v = v.value
+                if not isinstance(v, ast.Name) or part.format_spec is not None:
+                    raise Unsupported(m, "f-string over more than names / attributes")
+            return
+        raise Unsupported(m, "message is not a string literal")
+
+    def _imported_name(self, name):
+        for st in self.module.body:
+            if isinstance(st, ast.ImportFrom) and any((a.asname or a.name) == name and a.name == name for a in st.names):
+                return True
+        return False
 
     def _event_arg(self, a, want, node):
         if isinstance(a, ast.Name) and self.alias.get(a.id):
@@ -1110,6 +1208,8 @@ class PureSpec:
     # (record | None for a module-level function, name) -> (template: `{0}`, `{1}` … = arguments, `{obj}` = the object;
     #                                                        [argument types], result type, can it raise?)
     calls: dict = field(default_factory=dict)
+    enums: dict = field(default_factory=dict)      # plain `Enum` class -> (Lean inductive type, {member -> constructor}); ALL members
+    open_ns: str = ""                              # further namespaces opened in the generated file
     prelude: list = field(default_factory=list)    # hand-written Lean lines emitted before the function (glue named by templates)
 
 
@@ -1165,7 +1265,7 @@ def translate_pure_function(src: str, func: str, spec: PureSpec, namespace: str,
     o.append("-/")
     o.append("set_option linter.unusedVariables false")
     o.append(f"namespace {namespace}")
-    o.append("open OdxVerif")
+    o.append("open OdxVerif" + (f" {spec.open_ns}" if spec.open_ns else ""))
     o.append("")
     if spec.prelude:
         o.append("-- glue named by the spec of this translation (hand-written, part of the trusted rendering)")
@@ -1238,6 +1338,39 @@ def render_muxkey(repo: Path) -> str:
 
 def regenerate_muxkey(repo, verif):
     return _write(Path(verif) / "lean" / "OdxVerif" / "Gen" / "MuxDefaultKey.lean", render_muxkey(Path(repo)))
+
+
+def limit_spec():
+    return PureSpec(
+        params={"self": (("Rec", "Limit"), None), "value": (("Rec", "Val"), "value")},
+        binders="(l : Limit) (value : Val)",
+        attrs={("Limit", "_value"): ("l.value", opt(("Rec", "Val"))),
+               ("Limit", "interval_type"): ("l.itype", opt(("Rec", "IType")))},
+        enums={"IntervalType": ("IType", {"OPEN": "open_", "CLOSED": "closed", "INFINITE": "infinite"})},
+        # odxtypes.compare_odx_values is not translated (it dispatches on the run-time type of its arguments): it stands for the
+        # model's `compareOdx`, whose error classes are embedded into `Py.Err` by `errOfCompu`
+        calls={(None, "compare_odx_values"): ("(← Py.call errOfCompu (compareOdx {0} {1}))", [("Rec", "Val"), ("Rec", "Val")], INT, True)},
+        prelude=["/-- error classes of the hand-written compu model as Python exceptions of the rendering -/",
+                 "def errOfCompu : Compu.Err → Py.Err",
+                 "  | .encode => .encodeError",
+                 "  | .decode => .decodeError",
+                 "  | .odx => .odxError",
+                 "  | .foreign => .foreign"])
+
+
+def render_limit(repo: Path) -> str:
+    rel = "odxtools/compumethods/limit.py"
+    src = (Path(repo) / rel).read_text()
+    up = translate_pure_function(src, "complies_to_upper", limit_spec(), "OdxVerif.Compu.Gen",
+                                 ["OdxVerif.Model.Compu", "OdxVerif.Model.PyRt"], rel, cls_name="Limit")
+    lo_spec = limit_spec()
+    lo_spec.prelude = []
+    lo = translate_pure_function(src, "complies_to_lower", lo_spec, "OdxVerif.Compu.Gen", [], rel, cls_name="Limit")
+    return up + "\n" + lo
+
+
+def regenerate_limit(repo, verif):
+    return _write(Path(verif) / "lean" / "OdxVerif" / "Gen" / "CompuLimit.lean", render_limit(Path(repo)))
 
 
 def _write(out: Path, new: str):
